@@ -1171,7 +1171,7 @@ pub fn build_pool(seed: u64, repo: &str, sz: &PoolSizes, focus: Option<&PoolFocu
     }
     // (j) value relatives: one formula, a base placeholder and its representation relatives (see `relatives`)
     {
-        let mut push_family = |pool: &mut Pool, ev: Ev, text: String, chosen: Vec<Ph>| {
+        let mut push_family_as = |pool: &mut Pool, ev: Ev, text: String, chosen: Vec<Ph>, origin: &'static str| {
             if chosen.len() < 2 || text.chars().count() > 256 || !seen.insert((ev, text.clone())) {
                 return;
             }
@@ -1179,7 +1179,7 @@ pub fn build_pool(seed: u64, repo: &str, sz: &PoolSizes, focus: Option<&PoolFocu
             let mut idxs = Vec::new();
             for ph in chosen {
                 idxs.push(pool.entries.len() as u32);
-                pool.entries.push(Entry { call: Call { ev, expr: text.clone(), ph }, expr_id, origin: "value_relatives", oracle: Outcome::Panic(String::new()), ticks: 0, trace: 0, sensitive: false, text_id: 0 });
+                pool.entries.push(Entry { call: Call { ev, expr: text.clone(), ph }, expr_id, origin, oracle: Outcome::Panic(String::new()), ticks: 0, trace: 0, sensitive: false, text_id: 0 });
             }
             pool.by_expr.push(idxs);
             pool.by_text.entry(text).or_default().push(expr_id);
@@ -1240,7 +1240,34 @@ pub fn build_pool(seed: u64, repo: &str, sz: &PoolSizes, focus: Option<&PoolFocu
                 let deep = e == Ev::Cx && r.chance(0.5);
                 fam.extend(relatives(&mut r, base, if deep { 8 } else { 4 }));
                 fam.truncate(if deep { 24 } else { 10 });
-                push_family(&mut pool, e, text, fam);
+                push_family_as(&mut pool, e, text, fam, "value_relatives");
+            }
+        }
+        // (l) argument lattices for the functions a change names: one formula per function, 256 evenly spaced
+        //     placeholders - hundreds of DISTINCT arguments of exactly the code that changed (tables that fill up,
+        //     files that grow, capacities that overflow need many distinct keys, not many formulas)
+        if let Some(fc) = focus {
+            let mut fnames: Vec<&str> = fc.tokens.iter().filter(|t| t.ends_with('(')).map(|t| t.trim_end_matches('(')).collect();
+            r.shuffle(&mut fnames);
+            fnames.truncate(8);
+            let evs: Vec<Ev> = if fc.evs.is_empty() { ALL_EV.to_vec() } else { fc.evs.clone() };
+            for e in evs.into_iter().take(2) {
+                for f in fnames.iter() {
+                    let (base, step) = [(1.0f64, 0.001f64), (0.5, 0.01), (-2.0, 0.03), (10.0, 1.0)][r.below(4)];
+                    let fam: Vec<Ph> = (0..256)
+                        .map(|k| {
+                            let x = base + step * k as f64;
+                            match e {
+                                Ev::F64 => Ph::F64(x.to_bits()),
+                                Ev::I64 => Ph::I64(base as i64 + k as i64),
+                                Ev::Dec => Ph::Dec(dec_bits((x * 1000.0).round() as i128, 3)),
+                                Ev::Cx => Ph::Cx(x.to_bits(), ((k % 7) as f64 * 0.25).to_bits()),
+                                Ev::Num => if k % 2 == 0 { Ph::NumF(x.to_bits()) } else { Ph::NumI(base as i64 + k as i64) },
+                            }
+                        })
+                        .collect();
+                    push_family_as(&mut pool, e, format!("{}((@))", f), fam, "arg_lattice");
+                }
             }
         }
         // (k) exact inverse cases: arguments at which the true result of an inverse function is a whole number
@@ -1313,7 +1340,7 @@ pub fn build_pool(seed: u64, repo: &str, sz: &PoolSizes, focus: Option<&PoolFocu
                     fam.push(mk(1));
                 }
                 fam.dedup();
-                push_family(&mut pool, e, text, fam);
+                push_family_as(&mut pool, e, text, fam, "value_relatives");
             }
         }
     }
